@@ -1739,6 +1739,15 @@ impl Fs {
                 {
                     return true;
                 }
+                // Entries that were moved into this directory
+                PendingOp::Rename { to, .. }
+                    if to.parent() == Some(path)
+                        && (self.file_exists(to)
+                            || self.dir_exists(to)
+                            || self.symlink_exists(to)) =>
+                {
+                    return true;
+                }
                 _ => {}
             }
         }
